@@ -86,6 +86,13 @@ Proof.
   destruct (half2_01 v) as [Hv|Hv], (half2_01 w) as [Hw|Hw]; rewrite Hv, Hw; simpl; lia.
 Qed.
 
+(* the positive x axis itself sorts last in clockwise_about: nothing has a strictly larger key beta *)
+Lemma ang2_lt_xaxis_last : forall x w, 0 < x -> ang2_lt (x, 0) w = false.
+Proof.
+  intros x [xw yw] Hx. unfold ang2_lt, half2, vcross. simpl.
+  destruct (Z.ltb_spec 0 yw), (Z.eqb_spec yw 0), (Z.ltb_spec xw 0), (Z.ltb_spec x 0); simpl; try lia; try nia.
+Qed.
+
 (* no descent: beta a <= beta b *)
 Definition asc_ok (key : nat -> vec) (a b : nat) : Prop := ang2_lt (key b) (key a) = false.
 
